@@ -27,6 +27,7 @@ pub enum Tier {
 const SPLICE_SEED: u64 = 0x5A5_C19_0001;
 const GEN_SEED: u64 = 0x5A5_C19_0002;
 const MUT_SEED: u64 = 0x5A5_C19_0003;
+const UNI_SEED: u64 = 0x5A5_C19_0004;
 
 fn load_file(path: &Path, out: &mut Vec<Source>) -> Result<(), String> {
     let text = std::fs::read_to_string(path).map_err(|e| format!("{}: {e}", path.display()))?;
@@ -81,6 +82,72 @@ pub fn load(dir: &Path, tier: Tier) -> Result<Catalogue, String> {
         for reps in [3usize, 6, 9, 17, 33, 70] {
             if push(&mut sources, format!("d{k:02}x{reps}"), unit.repeat(reps)) {
                 n_dense += 1;
+            }
+        }
+    }
+
+    // deep / long repetitive structures: nesting beyond the expected mode-stack depth (40),
+    // long runs of iterations that consume no input, many arguments
+    let mut n_nested = 0;
+    for (k, (open, mid, close)) in [
+        ("%m(", "a", ")"),
+        ("%m(%r(x)=c,", "z", ")"),
+        ("%m(%r(x)=c,", "", ""),
+        ("%str(", "%)", ")"),
+        ("%eval(", "1", ")"),
+        ("%eval((", "1", "))"),
+        ("(", "a", ")"),
+        ("%if 1 %then ", "x;", ""),
+        ("%do;", "x;", "%end;"),
+        ("%do i=1 %to ", "2;", "%end;"),
+        ("\"&a", ".", "\""),
+        ("%macro m;", "x;", "%mend;"),
+        ("%let a=", "1", ";"),
+        ("%sysfunc(cats(", "a", "))"),
+        ("%m(a=", "1", ",b=2)"),
+        ("%nrstr(%str(", "&a", "))"),
+        ("%put ", "é", ";"),
+        ("%m(é=", "ü", ")"),
+    ]
+    .iter()
+    .enumerate()
+    {
+        for reps in [2usize, 5, 16, 17, 18, 33, 41, 45, 70] {
+            let t = format!("{}{}{}", open.repeat(reps), mid, close.repeat(reps));
+            if t.len() <= 1200 && push(&mut sources, format!("n{k:02}x{reps}"), t) {
+                n_nested += 1;
+            }
+            // and unbalanced: the closers cut short
+            let t = format!("{}{}{}", open.repeat(reps), mid, close.repeat(reps / 2));
+            if t.len() <= 1200 && push(&mut sources, format!("n{k:02}h{reps}"), t) {
+                n_nested += 1;
+            }
+        }
+    }
+
+    // base sources with some ASCII letters/digits replaced by multi-byte characters
+    let mut rng = Rng::new(UNI_SEED);
+    let mut n_uni = 0;
+    for s in &base {
+        if s.text.is_empty() || s.text.len() > 600 {
+            continue;
+        }
+        for v in 0..2 {
+            let mut t = String::with_capacity(s.text.len() + 8);
+            let mut changed = false;
+            for c in s.text.chars() {
+                if c.is_ascii_alphanumeric() && rng.chance(1, 6) {
+                    t.push_str(*rng.pick(UNI_CHARS));
+                    changed = true;
+                } else if c == ' ' && rng.chance(1, 10) {
+                    t.push('\u{a0}');
+                    changed = true;
+                } else {
+                    t.push(c);
+                }
+            }
+            if changed && push(&mut sources, format!("u{}:{v}", s.id), t) {
+                n_uni += 1;
             }
         }
     }
@@ -149,6 +216,23 @@ pub fn load(dir: &Path, tier: Tier) -> Result<Catalogue, String> {
         }
     }
 
+    // every char-boundary prefix of the first generated programs (end of input in every state)
+    let n_gen_prefix_of = match tier {
+        Tier::Quick => 150,
+        Tier::Thorough => 2_500,
+    };
+    let mut n_gen_prefix = 0;
+    for (k, gsrc) in gens.iter().take(n_gen_prefix_of).enumerate() {
+        for (i, _) in gsrc.char_indices() {
+            if i == 0 {
+                continue;
+            }
+            if push(&mut sources, format!("q{k:05}:{i}"), gsrc[..i].to_string()) {
+                n_gen_prefix += 1;
+            }
+        }
+    }
+
     // mutated programs: a character deleted, duplicated or replaced; truncated
     let mut rng = Rng::new(MUT_SEED);
     let n_mut_target = n_gen_target;
@@ -168,9 +252,12 @@ pub fn load(dir: &Path, tier: Tier) -> Result<Catalogue, String> {
         classes: vec![
             ("base+curated", n_first),
             ("dense", n_dense),
+            ("nested", n_nested),
+            ("unicodified", n_uni),
             ("prefixes", n_prefix),
             ("splices", n_splice),
             ("generated", n_gen),
+            ("generated-prefixes", n_gen_prefix),
             ("mutated", n_mut),
         ],
     })
@@ -196,7 +283,10 @@ fn random_slice(rng: &mut Rng, s: &str) -> (usize, usize) {
     }
 }
 
+const UNI_CHARS: &[&str] = &["é", "ü", "ж", "日", "🔥", "\u{a0}", "ß", "Ω", "\u{2028}", "ǅ"];
+
 const MUT_CHARS: &[&str] = &[
+    "+", "-", "d", "b", "n", "t", "dt", "x", "0", "9", "f", "_", "$", "#", "@", "`", "^", "~", "!", "|", "<", ">", "{", "}", "[", "]", ":", "?", "\t", "\r\n",
     ";", "%", "&", "(", ")", ",", "=", "'", "\"", "*", "/", ".", "\n", " ", "%*", "/*", "*/",
     "%(", "%)", "%str(", "%do", "%end", "%then", "%m", "&v", "é", "\u{feff}", "4", "x", "e",
 ];
@@ -232,8 +322,14 @@ struct Gen<'a> {
     budget: i32,
 }
 
-const NAMES: &[&str] = &["a", "b", "x1", "_v", "var", "ds", "mv", "é", "name", "i"];
-const MACROS: &[&str] = &["m", "mac", "util", "do_it", "m2"];
+const NAMES: &[&str] = &[
+    "a", "b", "x1", "_v", "var", "ds", "mv", "é", "name", "i", "a_rather_long_name_17",
+    "переменная", "名前", "abcdefghijklmnopqrstuvwxyz0123456789_long", "eq", "x",
+];
+const MACROS: &[&str] = &[
+    "m", "mac", "util", "do_it", "m2", "a_long_macro_name_over_14", "макрос", "sixteen_chars_xx",
+    "abcdefghijklmnopqrstuvwxyz0123456_33",
+];
 const OPS: &[&str] = &[
     "+", "-", "*", "/", "**", "=", "<", ">", "<=", ">=", "~=", "^=", "eq", "ne", "lt", "gt",
     "le", "ge", "and", "or", "in", "#", "||", "!!", "<>", "><", "|", "&",
@@ -514,8 +610,19 @@ impl Gen<'_> {
             }
             16 | 17 => format!("{};", self.mcall(depth)),
             18 => self.mcall(depth),
-            19 => format!("{}datalines;\n1 2 3\nabc;def\n;", self.pick(&["", "data a; input x; "])),
-            20 => "cards4;\nab;c\n;;;;".to_string(),
+            19 => format!(
+                "{}{};\n{}\n{}",
+                self.pick(&["", "data a; input x; ", "infile "]),
+                self.pick(&["datalines", "cards", "lines", "DataLines"]),
+                self.pick(&["1 2 3\nabc;def", "Jürgen München 42", "", "a\n\nb", "日本 1\n🔥 2"]),
+                self.pick(&[";", ";", "", ";é", "; x=1;"])
+            ),
+            20 => format!(
+                "{}4;\n{}\n{}",
+                self.pick(&["datalines", "cards", "lines"]),
+                self.pick(&["ab;c", "é;ü;;;", "", "1\n2"]),
+                self.pick(&[";;;;", ";;;;", ";;;", ";;", ";", "", ";;;;é", ";é", ";;;é", ";;;; y=2;"])
+            ),
             21 => format!("* comment {};", self.pick(NAMES)),
             22 => format!("/* c {} */", self.pick(NAMES)),
             23 => format!("%* mc {};", self.pick(NAMES)),
